@@ -34,6 +34,9 @@ def log(*a):
 _WID = [0]
 
 
+_Z3_LOCK = threading.Lock()
+
+
 class Worker:
     def __init__(self, scratch, env):
         self.scratch = scratch
@@ -79,7 +82,8 @@ class Worker:
         if not line:
             rc = self.p.wait()
             self.start()
-            cex = solve_journal(self.journal, ob)
+            with _Z3_LOCK:          # z3 is not re-entrant: two workers may die at the same moment
+                cex = solve_journal(self.journal, ob)
             return {'id': ob['id'], 'verdict': 'crash', 'detail': 'worker died rc=%s' % rc, 'cex': cex}
         return json.loads(line)
 
